@@ -310,6 +310,11 @@ class FortranAST:
                             child.update_fqsn(parent_scope.FQSN)
                     include_ast.none_scope = parent_scope
                     inc.scope_objs = added_entities
+                else:
+                    # The included file declares nothing (any more)
+                    for obj in added_entities:
+                        parent_scope.children.remove(obj)
+                    inc.scope_objs = []
 
     def resolve_links(self, obj_tree, link_version):
         for inherit_obj in self.inherit_objs:
